@@ -6,6 +6,7 @@ import Nsq.Proofs.AggregateFetch
 import Nsq.Proofs.AggregateDedup
 import Nsq.Proofs.Fetch
 import Nsq.Proofs.AggregateWrap
+import Nsq.Proofs.Latency
 /-!
 # C18 — nsqadmin's cluster view equals the sum of its parts
 
@@ -537,6 +538,105 @@ example : (match view Fixes.all (chanWorld true) (.channel "t1" "nosuch") with
     | .ok v => v.status | .error _ => 0) = 404 := by decide
 example : (match view Fixes.all f4World .nodes with
     | .ok v => v.status | .error _ => 0) = 200 := by decide
+
+/-! ## The latency document: shape of `e2e_processing_latency.percentiles` (round 7, `fixes/F24`) -/
+
+section Latency
+open Nsq.Model.Latency Nsq.Proofs.Latency
+
+/-- A channel whose latency document is `{"count":…,"percentiles":[null]}`. -/
+def pctChan : Chan := { name := "c1", cnt := {}, paused := false, clients := [], e2e := true, pct := [none] }
+def pctNsqd (filters : Bool) (extra : List (Option Topic)) : Nsqd :=
+  { addr := "N0", info := some info0, filters := filters,
+    stats := some ([some { name := "t1", cnt := {}, paused := false, e2e := true, channels := [some (chan0 true)] }] ++ extra) }
+def pctTopic : Topic := { name := "zz", cnt := {}, paused := false, e2e := true, channels := [some pctChan] }
+/-- The null percentile sits in a topic `zz` that the request does not ask for, on an nsqd (old, or
+behind a proxy) that does not honour `topic=`. -/
+def pctWorld : World := { lookupds := [], nsqdAddrs := ["N0"], nsqds := [pctNsqd false [some pctTopic]] }
+
+/-- **The defect reported for round 7 is genuine on the tree without F24**: one `null` inside
+`percentiles` anywhere in an nsqd's `/stats` answer makes `UnmarshalJSON` write to a nil map inside the
+GetNSQDStats fetch goroutine — process death, for the topic, channel, node and counter views alike
+(here: the view of topic `t1`, while the `null` is in another topic). -/
+theorem view_panics_without_pct_guard :
+    faultOf (view { Fixes.all with nilPct := false } pctWorld (.topic "t1")) =
+      some (.nilMapWrite "E2eProcessingLatencyAggregate.UnmarshalJSON p[\"min\"]") := by decide
+
+theorem view_no_panic_false_without_pct_guard :
+    ¬ view_no_panic_for { Fixes.all with nilPct := false } := by
+  intro h
+  obtain ⟨v, hv, _⟩ := h pctWorld (.topic "t1")
+  have := view_panics_without_pct_guard
+  rw [hv] at this
+  cases this
+
+example : faultOf (view { Fixes.all with nilPct := false } pctWorld .counter) =
+    some (.nilMapWrite "E2eProcessingLatencyAggregate.UnmarshalJSON p[\"min\"]") := by decide
+example : (match view Fixes.all pctWorld (.topic "t1") with
+    | .ok v => v.status | .error _ => 0) = 200 := by decide
+/-- The list views of direct mode decode `/stats` into `struct{Name}` only: they never see the document. -/
+example : (match view { Fixes.all with nilPct := false } pctWorld .topics with
+    | .ok v => v.status | .error _ => 0) = 200 := by decide
+
+/-- **latency_unmarshal.** `UnmarshalJSON` on the tree without F24 faults exactly on the documents with a
+`null` element; with F24 it never faults and returns the non-null entries in order. -/
+theorem latency_unmarshal (l : List Pct) :
+    ((∃ e, unmarshal false l = .error e) ↔ none ∈ l) ∧
+    unmarshal true l = .ok (l.filter (·.isSome)) ∧ AllSome (l.filter (·.isSome)) := by
+  refine ⟨⟨?_, unmarshal_unfixed_panics l⟩, unmarshal_fixed l, filter_allSome l⟩
+  rintro ⟨e, he⟩
+  apply Classical.byContradiction
+  intro hn
+  have : AllSome l := fun x hx hx0 => hn (hx0 ▸ hx)
+  rw [unmarshal_unfixed_ok l this] at he
+  cases he
+
+example : unmarshal false [some 99, none] =
+    .error (.nilMapWrite "E2eProcessingLatencyAggregate.UnmarshalJSON p[\"min\"]") := rfl
+example : unmarshal true [some 99, none, some 95] = .ok [some 99, some 95] := rfl
+
+/-- **latency_add_total.** `e.Add(e2)` never writes to a nil map when `e` holds none — whatever `e2` holds:
+its entries are only read, entries without a "quantile" member are found (or appended) under 0.0 — and
+afterwards `e` still holds no nil map; its keys are the old ones followed by the new ones of `e2`, without
+repetition if there was none. (Covers both ways an aggregate starts: fresh, in `GetNSQDStats`' channel map and in
+the handlers, or as the first node's own document, in the channel list of `TopicStats.Add`.) -/
+theorem latency_add_total (p e2 : List Pct) (h : AllSome p) :
+    ∃ r, add p e2 = .ok r ∧ AllSome r ∧
+      (∀ k, k ∈ r.map key ↔ k ∈ p.map key ∨ k ∈ e2.map key) ∧
+      ((p.map key).Nodup → (r.map key).Nodup) ∧
+      (∃ ext, r.map key = p.map key ++ ext) :=
+  add_spec e2 p h
+
+example : add [some 99, some 95] [some 50, none, some 99, some 0] = .ok [some 99, some 95, some 50, some 0] := rfl
+
+/-- **latency_aggregate_no_panic.** With F24, for any number of nodes reporting percentile lists of any
+lengths, with repeated, missing or `null` entries: decoding and aggregating never faults, and the aggregate
+has exactly one entry per distinct "quantile" reported in a non-null entry by some node. -/
+theorem latency_aggregate_no_panic (docs : List (List Pct)) :
+    ∃ r, aggregate true docs = .ok r ∧ AllSome r ∧ (r.map key).Nodup ∧
+      ∀ k, k ∈ r.map key ↔ ∃ d ∈ docs, some k ∈ d :=
+  aggregate_fixed docs
+
+example : aggregate true [[some 99, some 95, some 50], [none, some 50], [], [some 1, some 99, none]] =
+    .ok [some 99, some 95, some 50, some 1] := rfl
+
+/-- Without F24 a `null` entry in any node's document is fatal. -/
+theorem latency_aggregate_panics_without_guard (docs : List (List Pct)) (h : ∃ d ∈ docs, none ∈ d) :
+    ∃ e, aggregate false docs = .error e := by
+  obtain ⟨e, he⟩ := decodeAll_unfixed_panics docs h
+  exact ⟨e, by simp [aggregate, he]⟩
+
+example : ∃ e, aggregate false [[some 99], [none]] = .error e :=
+  latency_aggregate_panics_without_guard _ ⟨[none], by simp, by simp⟩
+
+/-- Why F24 *drops* the nil maps instead of merely skipping them in `UnmarshalJSON`'s loop
+(`if p == nil { continue }`): a nil map left in the first node's document — which `TopicStats.Add` takes over
+as the aggregate of the channel — is written to by the next node's `Add` as soon as that node reports an
+entry whose "quantile" reads 0.0 (member missing). `latency_add_total`'s hypothesis is necessary. -/
+theorem latency_skip_only_repair_insufficient :
+    add [none] [some 0] = .error (.nilMapWrite "E2eProcessingLatencyAggregate.Add p[i][\"max\"]") := rfl
+
+end Latency
 
 /-! ## fetch_terminates -/
 
